@@ -206,3 +206,69 @@ def corr_sample(ctx, ss, fields=("k", "uTrop", "vTrop", "u", "v", "jac")):
                 ctx.mismatch(f"sampleCore model vs sample: {f}", S.small_req(s), {f: a[f]}, {f: m[f]}, d); break
         if a.get("dimension") != m.get("reads"):
             ctx.mismatch("number of coordinates read by the model vs get_dimension()", S.small_req(s), a.get("dimension"), m.get("reads"))
+
+
+def short_dyadic(v):
+    """exactly representable 'small' constant: an integer multiple of 2^-12 below 2^28 (2, 0.5, 5.0, D/2, ...)"""
+    import math
+    return math.isfinite(v) and abs(v) < 2.0 ** 28 and (v * 4096.0) == math.floor(v * 4096.0)
+
+
+def foreign_widenings(t, s):
+    """values passed to from_f64 by the generic code that do not come from the table, the settings or the Gamma draw
+    ('computed ... from the user's inputs and from f64 constants of the table')"""
+    import math
+    tb = s["table"]
+    T = set()
+    for e in tb["entries"]:
+        T.add(b2f(e[2])); T.add(b2f(e[3]))
+    for key in ("dod", "cached"):
+        if key in s["built"]:
+            T.add(b2f(s["built"][key]))
+    if t.get("lambda") is not None:
+        T.add(b2f(t["lambda"]))
+    if "tol" in s["req"]:
+        T.add(b2f(s["req"]["tol"]))
+    bad = []
+    for b in t.get("widened_values", []):
+        v = b2f(b)
+        if v in T or short_dyadic(v) or not math.isfinite(v):
+            continue
+        # short number + table constant (e.g. D/2 * L + dod)
+        if any(math.isfinite(c) and short_dyadic(round((v - c) * 4096.0) / 4096.0) and abs((v - c) - round((v - c) * 4096.0) / 4096.0) <= 8 * abs(v) * 2.0 ** -52
+               for c in T):
+            continue
+        bad.append(v)
+    return bad
+
+
+def generic_scalar_guard(ctx, ss, k=6, tol=None):
+    """the real generic code instantiated with the tracking scalar on a few of the samples: exactly the three narrowings of the Gamma
+    draw (shape, coordinate 2E-2, tolerance), none while the Feynman parameters are computed, and no f64 constant widened into the
+    user's type that is not a table constant / setting / Gamma variate / exactly representable short number. A change that is
+    invisible at T = f64 (arithmetic moved into f64 and converted back, 2*PI() replaced by an f64 constant, ...) shows here."""
+    from .core import run_harness
+    sel = [s for s in ss if s.get("impl", {}).get("status") == "ok"][:k]
+    reqs = []
+    for i, s in enumerate(sel):
+        r = dict(s["req"], op="sample_track", debug=False, meta=True)
+        r.pop("api_graph", None)
+        if tol is not None and i % 2:
+            r["tol"] = f2b(tol)
+        reqs.append(r)
+    for s, r, t in zip(sel, reqs, run_harness(reqs)):
+        ctx.count("generic_scalar_guard")
+        if "error" in t or t.get("status") != "ok":
+            continue
+        n = len(s["case"]["edges"])
+        nar = [x["deps"] for x in t["narrowings"]]
+        small = S.small_req(dict(s, req=r))
+        if nar != [[], [2 * n - 2], []] or t.get("perm_narrowings") != 0:
+            ctx.violation(f"generic code: values of the user's scalar type are narrowed to f64 outside the Gamma draw: narrowings {nar} "
+                          f"(+{t.get('perm_narrowings')} while computing the Feynman parameters)", small, expected=[[], [2 * n - 2], []], observed=nar)
+            continue
+        bad = foreign_widenings(t, dict(s, req=r))
+        if bad:
+            ctx.violation(f"generic code: f64 values that are neither table constants, settings, the Gamma variate nor exactly representable short "
+                          f"numbers are widened into the user's scalar type: {bad[:4]}", small, observed=bad)
+
